@@ -11,6 +11,7 @@ import CharsetProof.Props.C10c
 import CharsetProof.Props.C10d
 import CharsetProof.Props.C10e
 import CharsetProof.Props.C10f
+import CharsetProof.Props.Full2
 open Charset
 #print axioms targetLanguages_is_model
 #print axioms C10_tied_language_full
@@ -22,6 +23,8 @@ open Charset
 #print axioms unicodeRangesOf_spec
 #print axioms insertionSort_sorted
 #print axioms C10_languages_current
+#print axioms C10_languages_full
+#print axioms detection_full_languages
 #print axioms C10_tied_language
 #print axioms C10_tied_table_now
 #print axioms mergeModel_nodup
